@@ -430,11 +430,11 @@ func linknamedToList() []string {
 // and all of its dependencies
 func appendListedPackages(packages []string, mainBuild bool) error {
 	startTime := time.Now()
-	args := []string{
-		"list",
-		// Similar flags to what go/packages uses.
-		"-json", "-export", "-compiled", "-e",
-	}
+	// The go command only accepts -C as its very first flag.
+	chdirFlag, forwardBuildFlags := splitChdirFlag(sharedCache.ForwardBuildFlags)
+	args := append([]string{"list"}, chdirFlag...)
+	// Similar flags to what go/packages uses.
+	args = append(args, "-json", "-export", "-compiled", "-e")
 	if mainBuild {
 		// When loading the top-level packages we are building,
 		// we want to transitively load all their dependencies as well.
@@ -443,7 +443,7 @@ func appendListedPackages(packages []string, mainBuild bool) error {
 		args = append(args, "-deps")
 	}
 	args = append(args, garbleBuildFlags...)
-	args = append(args, sharedCache.ForwardBuildFlags...)
+	args = append(args, forwardBuildFlags...)
 
 	if !mainBuild {
 		// If the top-level build included the -mod or -modfile flags,
